@@ -19,8 +19,13 @@ use krill::constants::TASK_QUEUE_NS;
 use krill::server::mq::{Task, TaskResult};
 use krill::server::scheduler::verif_process_task;
 use rpki::ca::idexchange::{
-    CaHandle, ChildHandle, ParentHandle, PublisherRequest,
+    CaHandle, ChildHandle, ParentHandle, PublisherRequest, RepoInfo,
 };
+use rpki::ca::provisioning::{
+    self, IssuanceRequest, RequestResourceLimit, ResourceClassName,
+    RevocationRequest,
+};
+use rpki::crypto::KeyIdentifier;
 use rpki::repository::resources::ResourceSet;
 use rpki::uri;
 use serde_json::{json, Map, Value};
@@ -189,6 +194,17 @@ pub struct World {
     /// been applied to the queue yet (StepHold ... Release): the window in
     /// which the scheduler thread is still "running" the task
     held: Option<(Box<krill::commons::storage::Ident>, TaskResult)>,
+    /// children that are not hosted by this instance (Krill.tla: Foreign):
+    /// the harness plays their part of the provisioning protocol
+    pub foreign: BTreeMap<String, ForeignChild>,
+}
+
+/// A child CA of another operator: an identity key, the parent it was
+/// added to, and its certificate keys by the role name of Krill.tla.
+pub struct ForeignChild {
+    pub parent: String,
+    id_key: KeyIdentifier,
+    keys: BTreeMap<String, KeyIdentifier>,
 }
 
 /// A BGPsec router key signing request for a fresh P-256 key.
@@ -278,6 +294,7 @@ impl World {
             slots: BTreeMap::new(),
             slot_parent: BTreeMap::from([("A".to_string(), "ta".to_string())]),
             held: None,
+            foreign: BTreeMap::new(),
         };
         world.init_ta()?;
         Ok(world)
@@ -307,7 +324,154 @@ impl World {
                 res.push(slot.clone());
             }
         }
+        for name in self.foreign.keys() {
+            if !res.contains(name) {
+                res.push(name.clone());
+            }
+        }
         res
+    }
+
+    //--- children that are not hosted here
+
+    /// ca_add_child for a child of another operator.
+    pub fn add_foreign(
+        &mut self, name: &str, parent: &str, res: &[String],
+    ) -> Result<(), String> {
+        let krill = self.env.krill.clone();
+        // (a child that was removed may be added again: a new identity, the
+        // same certificate keys)
+        let id_cert = krill.signer().create_self_signed_id_cert()
+            .map_err(|e| e.to_string())?;
+        let id_key = id_cert.public_key().key_identifier();
+        let req = AddChildRequest {
+            handle: ChildHandle::from_str(name).unwrap(),
+            resources: resources(res),
+            id_cert,
+        };
+        krill.ca_manager().ca_add_child(
+            &ca_handle(parent), req, &self.actor, &krill
+        ).map_err(|e| e.to_string())?;
+        let keys = self.foreign.remove(name).map(|f| f.keys)
+            .unwrap_or_default();
+        self.foreign.insert(name.to_string(), ForeignChild {
+            parent: parent.to_string(), id_key, keys,
+        });
+        Ok(())
+    }
+
+    /// The certificate key of a foreign child in the given role, created
+    /// on first use.
+    fn foreign_key(&mut self, name: &str, role: &str)
+        -> Result<KeyIdentifier, String>
+    {
+        if let Some(ki) = self.foreign.get(name).and_then(|f| f.keys.get(role))
+        {
+            return Ok(*ki)
+        }
+        let ki = self.env.krill.signer().create_key().map_err(|e| {
+            e.to_string()
+        })?;
+        self.foreign.get_mut(name).ok_or("unknown foreign child")?
+            .keys.insert(role.to_string(), ki);
+        Ok(ki)
+    }
+
+    /// The name of the resource class the parent offers the child (the
+    /// parent's first class if it currently offers nothing).
+    fn foreign_class(&self, name: &str) -> ResourceClassName {
+        let Some(f) = self.foreign.get(name) else {
+            return ResourceClassName::from("0")
+        };
+        if let Ok(ca) = self.env.krill.ca_manager().get_ca(
+            &ca_handle(&f.parent)
+        ) {
+            if let Ok(list) = ca.list(
+                &ChildHandle::from_str(name).unwrap(),
+                &self.env.krill.config().issuance_timing,
+            ) && let Some(class) = list.classes().first() {
+                return class.class_name().clone()
+            }
+            let v = serde_json::to_value(ca.as_ref()).unwrap_or_default();
+            if let Some(first) = v["resources"].as_object().and_then(|m| {
+                m.keys().next().cloned()
+            }) {
+                return ResourceClassName::from(first.as_str())
+            }
+        }
+        ResourceClassName::from("0")
+    }
+
+    /// One provisioning request of a foreign child, as a signed message
+    /// through CaManager::rfc6492 (the path of a remote child).
+    /// kind: "list" | "issue" | "revoke"; role: the key; limit: None = no
+    /// limit, Some(atoms) = a limit naming exactly these resources.
+    pub fn foreign_request(
+        &mut self, name: &str, kind: &str, role: &str,
+        limit: Option<&[String]>,
+    ) -> Result<(), String> {
+        let krill = self.env.krill.clone();
+        let Some(f) = self.foreign.get(name) else {
+            return Err("unknown foreign child".into())
+        };
+        let parent = f.parent.clone();
+        let id_key = f.id_key;
+        let sender = rpki::ca::idexchange::SenderHandle::from_str(name)
+            .map_err(|e| e.to_string())?;
+        let recipient: rpki::ca::idexchange::RecipientHandle
+            = ca_handle(&parent).convert();
+        let class = self.foreign_class(name);
+        let msg = match kind {
+            "list" => provisioning::Message::list(sender, recipient),
+            "issue" => {
+                let ki = self.foreign_key(name, role)?;
+                let repo = RepoInfo::new(
+                    uri::Rsync::from_str(&format!(
+                        "rsync://elsewhere.example.org/repo/{name}/"
+                    )).unwrap(),
+                    Some(uri::Https::from_str(
+                        "https://elsewhere.example.org/rrdp/notification.xml"
+                    ).unwrap()),
+                );
+                let csr = krill.signer().sign_csr(&repo, "0", &ki)
+                    .map_err(|e| format!("csr: {e}"))?;
+                let mut lim = RequestResourceLimit::new();
+                if let Some(atoms) = limit {
+                    // every family is named: the certificate is to carry
+                    // exactly these resources
+                    let set = resources(atoms);
+                    lim.with_asn(set.asn().clone());
+                    lim.with_ipv4(set.ipv4().clone());
+                    lim.with_ipv6(set.ipv6().clone());
+                }
+                provisioning::Message::issue(
+                    sender, recipient, IssuanceRequest::new(class, lim, csr),
+                )
+            }
+            "revoke" => {
+                let ki = self.foreign_key(name, role)?;
+                provisioning::Message::revoke(
+                    sender, recipient, RevocationRequest::new(class, ki),
+                )
+            }
+            other => return Err(format!("unknown request kind {other}")),
+        };
+        let cms = krill.signer().create_rfc6492_cms(msg, &id_key)
+            .map_err(|e| format!("sign: {e}"))?;
+        let reply = krill.ca_manager().rfc6492(
+            &ca_handle(&parent), cms.to_bytes(), Some("foreign".into()),
+            &self.actor, &krill,
+        ).map_err(|e| e.to_string())?;
+        // the reply must be a signed message of the parent that is not an
+        // error response
+        let cms = provisioning::ProvisioningCms::decode(reply.as_ref())
+            .map_err(|e| format!("reply undecodable: {e}"))?;
+        match cms.into_message().into_payload() {
+            provisioning::Payload::ErrorResponse(e) => {
+                Err(format!("error response: {e}"))
+            }
+            _ => Ok(()),
+        }
     }
 
     /// A restart: a new runtime on the same storage.
@@ -1112,6 +1276,13 @@ impl World {
             }
         }
         self.refresh_key_roles(&full);
+        for (name, f) in &self.foreign {
+            for (role, ki) in &f.keys {
+                self.key_roles.insert(
+                    ki.to_string(), (name.clone(), role.clone())
+                );
+            }
+        }
 
         let mut exists = Map::new();
         let mut parent = Map::new();
@@ -1145,6 +1316,13 @@ impl World {
                 cstate.insert(slot.clone(), json!("none"));
                 iss.insert(slot.clone(), no_certs());
                 sus.insert(slot.clone(), no_certs());
+            }
+            if let Some(f) = self.foreign.get(&slot) {
+                // a child that is not hosted here: only its parent's record
+                // of it exists (projected with the parent's children)
+                parent.insert(slot.clone(), json!(f.parent));
+                hasp.insert(slot.clone(), json!(true));
+                continue
             }
             let Some(ca) = full.get(&name) else { continue };
             // parents
@@ -1357,7 +1535,9 @@ impl World {
         }
         // (a slot of a deleted CA: nothing is known about its parent)
         for slot in self.all_slots() {
-            if !full.contains_key(&self.ca_of(&slot)) {
+            if !full.contains_key(&self.ca_of(&slot))
+                && !self.foreign.contains_key(&slot)
+            {
                 parent.remove(&slot);
                 hasp.remove(&slot);
             }
@@ -1397,7 +1577,15 @@ impl World {
                 }
             }
         }
-        let pubs = self.project_pub(&full);
+        let mut pubs = self.project_pub(&full);
+        for name in self.foreign.keys() {
+            // (their publication points are somewhere else)
+            pubs[name] = json!({
+                "cur": false, "new": false, "old": false, "vrps": [],
+                "agg": false, "kids": [], "ovrps": [], "okids": [],
+                "stray": [],
+            });
+        }
         // The status reports (C19): per CA the outcome of the most recent
         // exchange with its parent and the entitlements last returned, the
         // outcome of the most recent exchange with the repository and
@@ -1647,8 +1835,18 @@ impl World {
         let rsync_diff = differs(
             &rp::read_rsync_tree(&repo_dir, "rsync://krill.example.org/repo/")
         ) as i64;
+        // (the publication point of a child that is not hosted here is
+        // somewhere else: not finding it in this repository is no problem)
+        let foreign_keys: Vec<String> = self.foreign.values().flat_map(|f| {
+            f.keys.values().map(|k| k.to_string())
+        }).collect();
+        let problems: Vec<String> = res.problems.iter().filter(|p| {
+            !foreign_keys.iter().any(|k| {
+                p.eq_ignore_ascii_case(&format!("ca {k}: manifest missing"))
+            })
+        }).cloned().collect();
         json!({
-            "vrps": vrps, "problems": res.problems, "odd": odd,
+            "vrps": vrps, "problems": problems, "odd": odd,
             "orphans": res.orphans,
             "rrdpdiff": rrdp_diff, "rsyncdiff": rsync_diff,
         })
@@ -2187,6 +2385,51 @@ pub fn apply_action(w: &mut World, action: &Value) -> Result<Value, String> {
         "RoaDel" => {
             w.roa_update(
                 str_arg(action, "c"), &[], &[roa_arg(action)]
+            )?;
+            Ok(json!("ok"))
+        }
+        "AddForeign" => {
+            let c = str_arg(action, "c");
+            let p = str_arg(action, "p");
+            let wanted = resources(&list_arg(action, "res"));
+            let ok = w.env.krill.ca_manager().get_ca(&ca_handle(p))
+                .map(|ca| {
+                    !wanted.is_empty() && ca.all_resources().contains(&wanted)
+                }).unwrap_or(false);
+            let known = w.env.krill.ca_manager().get_ca(&ca_handle(p))
+                .map(|ca| {
+                    ca.get_child(&ChildHandle::from_str(c).unwrap()).is_ok()
+                }).unwrap_or(false);
+            let other_parent = w.foreign.get(c).map(|f| f.parent != p)
+                .unwrap_or(false);
+            if !ok || known || other_parent {
+                return Ok(json!({"skipped": true}))
+            }
+            w.slot_parent.insert(c.to_string(), p.to_string());
+            w.add_foreign(c, p, &list_arg(action, "res"))?;
+            Ok(json!("ok"))
+        }
+        "FList" | "FIssue" | "FRevoke" => {
+            let c = str_arg(action, "c");
+            // (only while the parent exists and knows the child)
+            let known = w.foreign.get(c).map(|f| {
+                w.env.krill.ca_manager().get_ca(&ca_handle(&f.parent))
+                    .map(|p| {
+                        p.get_child(&ChildHandle::from_str(c).unwrap()).is_ok()
+                    }).unwrap_or(false)
+            }).unwrap_or(false);
+            if !known {
+                return Ok(json!({"skipped": true}))
+            }
+            let kind = match a {
+                "FList" => "list", "FIssue" => "issue", _ => "revoke",
+            };
+            let lim = list_arg(action, "lim");
+            let nolim = action.get("nolim").and_then(|x| x.as_bool())
+                .unwrap_or(false);
+            w.foreign_request(
+                c, kind, str_arg(action, "x"),
+                if nolim || a != "FIssue" { None } else { Some(&lim) },
             )?;
             Ok(json!("ok"))
         }
